@@ -883,7 +883,11 @@ def build_dataset(rng, spec):
         elif k == "bool":
             ds.add_bool(name, val=np.array([rng.random() < 0.5 for _ in range(n)], dtype=bool), **kw)
         elif k == "text":
-            ds.add_text(name, val=[rng.choice(TEXTS) for _ in range(n)], **kw)
+            if rng.random() < 0.35:       # 2-d text: rows x columns, strings longer than the number of columns
+                cols = rng.choice([1, 2, 3])
+                ds.add_text(name, val=np.array([[rng.choice(TEXTS) for _ in range(cols)] for _ in range(n)], dtype=str).reshape(n, cols), **kw)
+            else:
+                ds.add_text(name, val=[rng.choice(TEXTS) for _ in range(n)], **kw)
         elif k == "sigma":
             ds.add_sigma(name, val=fvals((n,)), sigma=fvals((n,)), unit=rng.choice([None, "meter"]), **kw)
         elif k == "time":
@@ -1160,9 +1164,67 @@ def corpus_cases():
             return d, lvl, f"graph:dropped_with_refs:{lvl}"
         return build
 
+    # 2-d text fields (rows x columns; strings longer than the number of columns), top level and in collections
+    def text_2d(rows, cols):
+        def build():
+            d = dataset.Dataset(rows)
+            words = ["a", "nan inf", " lead", "it's", "trail ", "abc def ghi", "", "0123456789"]
+            val = np.array([[words[(r * cols + c) % len(words)] for c in range(cols)] for r in range(rows)], dtype=str).reshape(rows, cols)
+            d.add_text("t2", val=val)
+            d.add_text("g.t2", val=val[:, ::-1].copy(), write_level="analysis")
+            d.add_text("g.h.t2", val=np.char.add(val, "x"))
+            d.add_text("t1", val=[w + "yz" for w in val[:, 0]])
+            return d, "analysis", f"corpus:text_2d:{rows}x{cols}"
+        return build
+
+    # a field literally named like a reference attribute, next to an object embedded under that attribute
+    from midgard.data.time import Time
+
+    def T(k):
+        return Time(np.array([58000.0 + k, 58001.5 + k]), scale="utc" if k % 2 else "gps", fmt="mjd")
+
+    def named_like_attr(attr, variant):
+        def build():
+            d = dataset.Dataset(2)
+
+            def embedded(k):
+                return T(k) if attr == "time" else position.Position(P(2, 9 + k), system="trs")
+
+            def add_holder(name, obj, **kw):
+                if attr == "ref_pos":
+                    d.add_position_delta(name, val=P(2, 0.5), system="trs", ref_pos=obj, **kw)
+                else:
+                    d.add_position(name, val=P(2, 2), system="trs", **{attr: obj}, **kw)
+
+            def add_named(**kw):
+                if attr == "time":
+                    d.add_time(attr, val=T(100), **kw)
+                else:
+                    d.add_position(attr, val=P(2, 5), system="trs", **kw)
+
+            if variant == "holder_first":            # the embedded object is read before the field named like the attribute
+                add_holder("a", embedded(1))
+                add_named()
+            elif variant == "field_first":            # ... after it, and a third field refers to the field by name
+                add_named()
+                add_holder("a", embedded(1))
+                add_holder("c", getattr(d, attr))
+            elif variant == "dropped":                # embedded because the referred field is below the write level
+                if attr == "time":
+                    d.add_time("low", val=T(3), write_level="detail")
+                else:
+                    d.add_position("low", val=P(2, 7), system="trs", write_level="detail")
+                add_holder("g.a", d.low)
+                add_named()
+                add_holder("c", getattr(d, attr))
+            return d, ("operational" if variant == "dropped" else None), f"graph:named_like_attr:{attr}:{variant}"
+        return build
+
+    named = [named_like_attr(a, v) for a in ("time", "other", "ref_pos") for v in ("holder_first", "field_first", "dropped")]
     return [dangling, forward_top, coll_forward, coll_to_top_forward, nested_forward, nested_backward, chain, meta_only, text_levels,
             shared_confusion, shared_ondemand, private_to_field, nested_same_name,
-            dropped_with_refs("operational"), dropped_with_refs("analysis"), dropped_with_refs("detail")]
+            dropped_with_refs("operational"), dropped_with_refs("analysis"), dropped_with_refs("detail"),
+            text_2d(1, 2), text_2d(3, 2), text_2d(2, 3), text_2d(4, 1)] + named
 
 
 def grid_cases(full):
@@ -1290,14 +1352,14 @@ def run(ctx):
     corp = corpus_cases()
     n_hand = len(corp)
     corp = corp + grid_cases(not ctx.quick())
-    n_ds += len(corp) - n_hand
+    n_ds += len(corp) - 16          # the random stream keeps its size when the directed corpus grows
     idx = 0
     skipped = 0
     n_done = 0
     while n_done < n_ds and idx < n_ds * 3:
         c = corp[idx] if idx < len(corp) else None
         try:
-            term, rep, info = run_dataset_case(ctx, idx, rng, corpus=c, reread=(idx % 3 == 0 or idx < n_hand))
+            term, rep, info = run_dataset_case(ctx, idx, rng, corpus=c, reread=(idx % 3 == 0 or idx < 9))
         except Unrepresentable as ex:
             skipped += 1
             ctx.count("dataset:outside-model")
